@@ -240,6 +240,16 @@ type verdict struct {
 	class   string // "" = agrees with an accepted reading
 	reading int    // index of the matching reading when class == ""
 	got     string
+	mask    uint64 // set results: rendered lazily (violations are dense on an unfixed tree)
+	outside []int
+	isSet   bool
+}
+
+func (v verdict) gotString() string {
+	if v.isSet {
+		return maskString(v.mask, v.outside)
+	}
+	return v.got
 }
 
 func anyAmbiguous(recs []*termRec) bool {
@@ -271,7 +281,7 @@ func (c *checker) judgeSet(n int, tt []pagesel.Term, amb bool, got uint64, outsi
 			}
 		}
 	}
-	v := verdict{got: maskString(got, outside)}
+	v := verdict{mask: got, outside: outside, isSet: true}
 	switch {
 	case len(outside) > 0 || got&^(all|1) != 0:
 		v.class = "beyond-pagecount"
@@ -338,16 +348,28 @@ func (c *checker) judgeList(n int, tt []pagesel.Term, amb bool, got []int, err e
 
 // attribute builds the violation key: the first term that shows the same class when evaluated
 // alone is named; otherwise the defect only shows in composition and the shapes are listed.
+var termKeyCache sync.Map // [3]string{api, class, term shape} -> key
+
+func termKey(api, class, shape string) string {
+	id := [3]string{api, class, shape}
+	if k, ok := termKeyCache.Load(id); ok {
+		return k.(string)
+	}
+	k := fmt.Sprintf("%s/%s/term=%s", api, class, shape)
+	termKeyCache.Store(id, k)
+	return k
+}
+
 func attribute(api, class string, recs []*termRec, bad func(*termRec) string) string {
 	if len(recs) == 1 {
-		return fmt.Sprintf("%s/%s/term=%s", api, class, recs[0].key)
+		return termKey(api, class, recs[0].key)
 	}
 	if len(recs) == 2 && recs[0].probe {
-		return fmt.Sprintf("%s/%s/term=%s", api, class, recs[1].key)
+		return termKey(api, class, recs[1].key)
 	}
 	for _, r := range recs {
 		if b := bad(r); b != "" && (b == class || strings.HasPrefix(class, b) || strings.HasPrefix(b, class)) {
-			return fmt.Sprintf("%s/%s/term=%s", api, class, r.key)
+			return termKey(api, class, r.key)
 		}
 	}
 	kk := make([]string, len(recs))
@@ -398,6 +420,7 @@ func (c *checker) checkExpr(n int, recs []*termRec, tt []pagesel.Term, st *stats
 			return replayCase{N: n, Expr: exprOf(recs), API: apiName, Got: got, Want: fmt.Sprint(want)}
 		}
 	}
+	rcf := func(f func() replayCase) func() replayCase { return f }
 	noBad := func(*termRec) string { return "" }
 
 	// 1. syntax: must be accepted and split into exactly these terms
@@ -472,8 +495,10 @@ func (c *checker) checkExpr(n int, recs []*termRec, tt []pagesel.Term, st *stats
 				c.violate(st, attribute("selection", v.class, recs, badSel),
 					func() string {
 						return fmt.Sprintf("PagesForPageSelection(%d, [%s]) selects %s; reference (plain reading) %s; selected pages must lie within 1..%d",
-							n, exprOf(recs), v.got, maskString(plainSel, nil), n)
-					}, rc("PagesForPageSelection", v.got, maskString(plainSel, nil)))
+							n, exprOf(recs), v.gotString(), maskString(plainSel, nil), n)
+					}, rcf(func() replayCase {
+						return replayCase{N: n, Expr: exprOf(recs), API: "PagesForPageSelection", Got: v.gotString(), Want: maskString(plainSel, nil)}
+					}))
 			}
 		}
 	}
@@ -512,8 +537,10 @@ func (c *checker) checkExpr(n int, recs []*termRec, tt []pagesel.Term, st *stats
 				}
 				c.violate(st, attribute("removal", v.class, recs, badRem),
 					func() string {
-						return fmt.Sprintf("RemainingPagesForPageRemoval(%d, [%s]) keeps %s; reference (plain reading) %s", n, exprOf(recs), v.got, maskString(plainRem, nil))
-					}, rc("RemainingPagesForPageRemoval", v.got, maskString(plainRem, nil)))
+						return fmt.Sprintf("RemainingPagesForPageRemoval(%d, [%s]) keeps %s; reference (plain reading) %s", n, exprOf(recs), v.gotString(), maskString(plainRem, nil))
+					}, rcf(func() replayCase {
+						return replayCase{N: n, Expr: exprOf(recs), API: "RemainingPagesForPageRemoval", Got: v.gotString(), Want: maskString(plainRem, nil)}
+					}))
 			}
 		}
 	}
@@ -542,6 +569,76 @@ func (c *checker) checkExpr(n int, recs []*termRec, tt []pagesel.Term, st *stats
 			}
 		}
 	}
+}
+
+func callSel(n int, parts []string) (m map[int]bool, err error, p any) {
+	defer func() {
+		if r := recover(); r != nil {
+			p = r
+		}
+	}()
+	m, err = api.PagesForPageSelection(n, parts, false, false)
+	return
+}
+
+// fastSel is the lean form of checkExpr(full=false) for the 3-term enumeration: it reports true when
+// PagesForPageSelection agrees with an accepted reading; everything else is left to checkExpr (which
+// repeats the call and does the classification and reporting).
+func (c *checker) fastSel(n int, recs []*termRec, tt []pagesel.Term, parts []string, st *stats) bool {
+	for i, r := range recs {
+		parts[i] = r.s
+	}
+	m, err, p := callSel(n, parts)
+	if p != nil || err != nil {
+		return false
+	}
+	var got uint64
+	var falseOutside int64
+	for k, v := range m {
+		if !v {
+			if k < 1 || k > n {
+				falseOutside++
+			}
+			continue
+		}
+		if k < 0 || k > 63 {
+			return false
+		}
+		got |= 1 << uint(k)
+	}
+	plain := pagesel.SelectionMask(n, tt, readings[0])
+	hit := -1
+	if got == plain {
+		hit = 0
+	} else if anyAmbiguous(recs) {
+		for i := 1; i < len(readings); i++ {
+			if got == pagesel.SelectionMask(n, tt, readings[i]) {
+				hit = i
+				break
+			}
+		}
+	}
+	if hit < 0 {
+		return false
+	}
+	st.exprs++
+	st.selOnlyExprs++
+	st.selCalls++
+	st.falseOutside += falseOutside
+	st.readingHits[hit]++
+	if hit != 0 {
+		st.nonPlain++
+	}
+	nontriv := plain != 0 && plain != pagesel.AllMask(n)
+	for _, r := range recs {
+		if r.oor {
+			nontriv = true
+		}
+	}
+	if nontriv {
+		st.nontrivial++
+	}
+	return true
 }
 
 // probeNegated observes a negated term after "-l" and records its classes.
@@ -588,7 +685,7 @@ var canonical = []struct {
 	expr string
 }{{5, "0-2"}, {5, "0"}, {5, "0-"}, {5, "0-l"}, {5, "0-l-1"}, {0, "l"}, {5, "l-7-"}, {5, "l-3-"}, {5, "3-99"}, {5, "4-2"}, {5, "!2,even"}, {5, "1-,!3,odd"}}
 
-const sampleStride = 32 // thorough tier: every 32nd 3-term expression runs all four APIs
+const sampleStride = 64 // thorough tier: every 64th 3-term expression runs all four APIs
 
 func (c *checker) enumerate(maxTerms int) {
 	t := c.t
@@ -687,6 +784,7 @@ func (c *checker) enumerate(maxTerms int) {
 		tt2 := make([]pagesel.Term, 2)
 		recs3 := make([]*termRec, 3)
 		tt3 := make([]pagesel.Term, 3)
+		parts3 := make([]string, 3)
 		a := terms[i]
 		for j, b := range terms {
 			recs2[0], recs2[1] = a, b
@@ -705,6 +803,9 @@ func (c *checker) enumerate(maxTerms int) {
 				recs3[0], recs3[1], recs3[2] = a, b, d
 				tt3[0], tt3[1], tt3[2] = a.t, b.t, d.t
 				full := (i*31+j*7+l+offset)%sampleStride == 0
+				if !full && c.fastSel(n, recs3, tt3, parts3, st) {
+					continue
+				}
 				c.checkExpr(n, recs3, tt3, st, false, full)
 			}
 			shapes[a.key] += int64(len(terms))
